@@ -5,6 +5,7 @@ import (
 	"reflect"
 	"strings"
 	"testing"
+	"time"
 
 	"github.com/jcmturner/gofork/encoding/asn1"
 	"github.com/jcmturner/gokrb5/v8/asn1tools"
@@ -298,6 +299,7 @@ func TestC13(t *testing.T) {
 	}
 	c13Lengths(m, v, rng)
 	c13Flags(m, v)
+	c13RealDecrypt(t, m, v, rng)
 	v.ModelAsks = m.N
 	v.Write(t)
 }
@@ -421,6 +423,82 @@ func c13Flags(m *Model, v *Verdict) {
 		types.UnsetFlag(&f, i)
 		if string(f.Bytes) != string(make([]byte, 4)) {
 			v.Violate("failing-input", fmt.Sprintf("c13:flag-unset:%d", i), "UnsetFlag does not clear exactly the bit it set", map[string]string{"bit": itoa(i)})
+		}
+	}
+}
+
+// c13RealDecrypt: messages with really encrypted parts (all six etypes): decoding, decrypting (once and
+// twice) and re-encoding reproduces the original bytes, for the AP-REQ with its ticket and for KDC replies.
+func c13RealDecrypt(t *testing.T, m *Model, v *Verdict, rng *RNG) {
+	kt, _ := serviceKeytab()
+	for _, et := range allEtypes {
+		for k := 0; k < 3; k++ {
+			c := baseCase(et)
+			ap0, b, err := mintAPReqKey(m, rng, c, time.Now())
+			if err != nil {
+				v.Note("c13 real decrypt: not minted: " + err.Error())
+				continue
+			}
+			var ap messages.APReq
+			v.Case(fmt.Sprintf("real-decrypt/APReq/%d/%d", et, k), "AP-REQ really decrypted")
+			det := map[string]string{"type": "APReq", "etype": itoa(et), "bytes": X(b)}
+			if e := ap.Unmarshal(b); e != nil {
+				v.Violate("failing-input", "c13:real-decrypt:unmarshal", "a message the library marshalled is not unmarshalled", det)
+				continue
+			}
+			steps := []func() error{
+				func() error { return ap.Ticket.DecryptEncPart(kt, nil) },
+				func() error { return ap.DecryptAuthenticator(ap.Ticket.DecryptedEncPart.Key) },
+				func() error { return ap.Ticket.DecryptEncPart(kt, nil) },
+				func() error { return ap.DecryptAuthenticator(ap.Ticket.DecryptedEncPart.Key) },
+			}
+			for i, st := range steps {
+				var e error
+				if p := Protect(func() { e = st() }); p != "" || e != nil {
+					det["step"] = fmt.Sprint(i)
+					det["error"] = fmt.Sprint(e, p)
+					v.Violate("failing-input", fmt.Sprintf("c13:real-decrypt:step:%d", et), "decrypting a part of a decoded message fails (the second time: the first decryption changed the message)", det)
+					break
+				}
+				b2, e2 := ap.Marshal()
+				if e2 != nil || string(b2) != string(b) {
+					det["step"] = fmt.Sprint(i)
+					det["reencoded"] = X(b2)
+					v.Violate("failing-input", fmt.Sprintf("c13:real-decrypt:reencode:%d", et), "re-encoding a message after a part of it was decrypted does not reproduce the original bytes", det)
+					break
+				}
+			}
+			_ = ap0
+		}
+		// a KDC reply
+		cname := types.PrincipalName{NameType: 1, NameString: []string{c09User}}
+		rc := baseRep(true, et, "session")
+		sk := types.EncryptionKey{KeyType: et, KeyValue: randKey(rng, et)}
+		rq := kdcReqInfo{cname: cname, realm: c09Realm, nonce: 1 + rng.Intn(1<<30), sname: types.PrincipalName{NameType: 2, NameString: []string{"HTTP", "host.test.gokrb5"}}}
+		b, err := mintKDCRep(rng, rc, rq, sk, nil, time.Now())
+		if err != nil {
+			continue
+		}
+		var rep messages.TGSRep
+		v.Case(fmt.Sprintf("real-decrypt/TGSRep/%d", et), "TGS-REP really decrypted")
+		det := map[string]string{"type": "TGSRep", "etype": itoa(et), "bytes": X(b)}
+		if e := rep.Unmarshal(b); e != nil {
+			v.Violate("failing-input", "c13:real-decrypt:unmarshal", "a message the library marshalled is not unmarshalled", det)
+			continue
+		}
+		for i := 0; i < 2; i++ {
+			var e error
+			if p := Protect(func() { e = rep.DecryptEncPart(sk) }); p != "" || e != nil {
+				det["error"] = fmt.Sprint(e, p)
+				v.Violate("failing-input", fmt.Sprintf("c13:real-decrypt:step:%d", et), "decrypting a part of a decoded message fails (the second time: the first decryption changed the message)", det)
+				break
+			}
+			b2, e2 := rep.Marshal()
+			if e2 != nil || string(b2) != string(b) {
+				det["reencoded"] = X(b2)
+				v.Violate("failing-input", fmt.Sprintf("c13:real-decrypt:reencode:%d", et), "re-encoding a message after a part of it was decrypted does not reproduce the original bytes", det)
+				break
+			}
 		}
 	}
 }
